@@ -350,6 +350,41 @@ def run(ctx, repo, tier):
     oa_m = OrdAnalysis(repo, fm).run()
     sel_names = check_selectors(ctx, oa_m, fm, 1, "C13.merge")
     check_no_input_mutation(ctx, oa_m, fm, "C13.merge", ["index_list", "all_to_join", "my_matrix"])
+    # RE-INDEX: with an existing index list every listed cell is looked up in WHICHEVER group contains it (groups interleave after
+    # merges: [[0, 3], [1], ...]); a lookup that assumes groups are contiguous ranges (binary search over first members) misses
+    # non-first members and silently skips their merge
+    ctx.instance("CANDIDATES")
+    lookups = []
+    for fn_, node_ in [(fm, fm.node), (fd, fd.node)]:
+        for c_ in ast.walk(node_):
+            if isinstance(c_, ast.Call) and isinstance(c_.func, ast.Name) and fm.module.functions.get(c_.func.id) is not None and \
+                    any(isinstance(a_, ast.Name) and "index_list" in a_.id for a_ in c_.args):
+                g_ = fm.module.functions[c_.func.id]
+                if g_.name in ("merge_sublists", "merge_matrix_cells", "delete_rate_cells", "sqra_normalize"):
+                    continue
+                lookups.append((fn_, c_, g_))
+    bad_l = []
+    for fn_, c_, g_ in lookups:
+        ctx.analysed(g_)
+        txt_ = src(g_.node)
+        if "bisect" in txt_ or "searchsorted" in txt_:
+            bad_l.append((fn_, c_, g_))
+    if bad_l:
+        fn_, c_, g_ = bad_l[0]
+        ctx.violate("CANDIDATES", "C13.merge.reindex", f"cells are located in the index list by a binary search over the groups' first members "
+                    f"({g_.name}): groups interleave after a merge ([[0, 3], [1], ...]), a non-first member of such a group is reported as "
+                    "absent and its merge / deletion is silently skipped", fn_.where, src(c_)[:140],
+                    witness="index_list=[[0, 3], [1], [2]], cell 3: bisect over first members [0, 1, 2] lands on group [2]")
+    elif lookups:
+        full = all(any(isinstance(x_, ast.ListComp) and any(isinstance(y_, ast.Compare) and isinstance(y_.ops[0], ast.In) for y_ in ast.walk(x_))
+                       for x_ in ast.walk(g_.node)) for _, _, g_ in lookups)
+        if full:
+            ctx.ok("CANDIDATES", "C13.merge.reindex", "cells are located by a membership scan over ALL groups of the index list", fm.where,
+                   src(lookups[0][1])[:120])
+        else:
+            ctx.inconclusive("CANDIDATES", "C13.merge.reindex", "lookup of cells in the index list not recognised", fm.where, src(lookups[0][1])[:120])
+    else:
+        ctx.inconclusive("CANDIDATES", "C13.merge.reindex", "no lookup of cells in the index list found", fm.where)
     # group representative: g[0] / g[1:] on group variables must see ascending groups
     rep_sites = []
     for n in ast.walk(fm.node):
